@@ -8,9 +8,11 @@ package home
 //vx:overlay internal/home/zz_vx_c12.go
 //vx:entry vxC12Throttle reach=blocked,blocked-right-password,failed,success,reset-by-success,block-elapsed,window-expired,second-address
 //vx:entry vxC12Sessions reach=login,accepted,rejected-expired,rejected-logged-out,rejected-unknown,restart,refreshed
+//vx:entry vxC12LogoutRace reach=interleaved,race-probed
 //vx:entry vxC12Record reach=roundtrip,garbled-accepted,garbled-rejected
 //vx:stub time.runtimeNow vxC12now
 //vx:stub time.runtimeNano vxC12RuntimeNano
+//vx:stub time.initLocal vxC12InitLocal
 //vx:stub (*encoding/json.Decoder).Decode vxC12Decode
 //vx:stub golang.org/x/crypto/bcrypt.CompareHashAndPassword vxC12Compare
 //vx:stub crypto/rand.Read vxC12Rand
@@ -27,6 +29,12 @@ package home
 //vx:stub (*go.etcd.io/bbolt.Bucket).Put vxC12Put
 //vx:stub (*go.etcd.io/bbolt.Bucket).Delete vxC12Delete
 //vx:stub (*go.etcd.io/bbolt.Bucket).ForEach vxC12ForEach
+//vx:note Throttle entry: real handleLogin -> authRateLimiter -> newCookie on 4 (quick) / 5 (thorough) login attempts; per attempt a symbolic password verdict and a symbolic monotonic instant (non-decreasing, nanosecond resolution, < 95 years), arbitrary wall-clock reading; attempt limit symbolic over all of uint >= 1; block duration 15 min (quick) / {1, 15} min (thorough) - concrete because a symbolic Duration stalls the solver in time.Add (d/1e9); two peer addresses (IPv4, IPv6), every attempt from a different port and with a different spoofed X-Real-IP inside trusted_proxies; quick: at most one attempt from the second address, thorough: any pattern
+//vx:note Throttle reference (written from the statement): per address a run of failures that starts with the first failure and is forgotten one minute later or on success; the run reaching the limit starts a block of the configured length; blocked <=> 429, no password evaluation, no session.  Open corners, not asserted: the state after a failed attempt exactly one minute after the first failure or exactly at the end of the block
+//vx:note Sessions entry: real handleLogin / optionalAuth(checkSession) / handleLogout / InitAuth(loadSessions) over login followed by 2 (quick) / 3 (thorough) steps from {request, logout, restart; thorough: second login} and a final request per token plus a never-issued token; instants symbolic seconds, non-decreasing, in a window of 8 days (quick) / 70 days (thorough) starting 2023-11-14T22:13:20Z+30000s; TTL symbolic 0..3 days (quick) / 0..31 days (thorough)
+//vx:note Sessions reference: refused if never issued, logged out, refused before, or now >= (login or last authenticated use) + TTL; served if now < login + TTL or now < last use + TTL - 86399 s; in between (the "once a day" refresh granularity) either answer is accepted
+//vx:note LogoutRace entry: one request with the same token runs to completion at the end of a database operation of the logout handler if the Auth lock is free there (cooperative interleaving at I/O points only); then request, restart, request must all be refused
+//vx:note outside: bcrypt (verdict is an input bit), JSON body decoding, crypto/rand (tokens are 0x11.., 0x22..), bbolt (transactional key-value model: writes visible after Commit only, ForEach over a snapshot, no I/O errors), Retry-After value ((time.Duration).Seconds stubbed to 0), Set-Cookie formatting (http.SetCookie records the cookie), wall clock going backwards for sessions, 32-bit wrap of expire in 2106, preemptive concurrency other than the single overtaking request, gl-inet mode
 
 import (
 	"encoding/json"
@@ -65,6 +73,10 @@ func vxC12now() (sec int64, nsec int32, mono int64) {
 }
 
 func vxC12RuntimeNano() int64 { return 1 }
+
+// vxC12InitLocal replaces time.initLocal (reads $TZ and the zone files): the
+// local zone is UTC.
+func vxC12InitLocal() {}
 
 // vxC12Seconds replaces the float conversion that feeds the Retry-After header
 // (symbolic floats are not supported; the header value is outside the claim).
@@ -160,6 +172,33 @@ func vxC12Open(path string, mode os.FileMode, o *bbolt.Options) (*bbolt.DB, erro
 
 func vxC12Close(db *bbolt.DB) error { return nil }
 
+// Interleaving points.  The end of a database operation is where the handler
+// goroutine can be overtaken by another request: when enabled, one request
+// carrying vxC12YieldTok runs to completion at the chosen point, provided it
+// could take the Auth lock there (otherwise it would wait for the next point).
+var (
+	vxC12YieldOn     bool
+	vxC12YieldAt     int
+	vxC12YieldTok    string
+	vxC12YieldServed bool
+)
+
+func vxC12Yield() {
+	if !vxC12YieldOn || vxC12TxOpen {
+		return
+	}
+	if vx.Held(&globalContext.auth.lock) != 0 {
+		return
+	}
+	if vxC12YieldAt > 0 {
+		vxC12YieldAt--
+		return
+	}
+	vxC12YieldOn = false
+	vx.Reach("interleaved")
+	vxC12YieldServed, _ = vxC12Request(vxC12YieldTok)
+}
+
 func vxC12Begin(db *bbolt.DB, writable bool) (*bbolt.Tx, error) {
 	if vxC12TxOpen {
 		vx.Fail("second write transaction while one is open (bbolt would block forever)")
@@ -169,11 +208,18 @@ func vxC12Begin(db *bbolt.DB, writable bool) (*bbolt.Tx, error) {
 	return &bbolt.Tx{WriteFlag: 1}, nil
 }
 
+// vxC12Rollback also hosts the interleaving point "a database operation of the
+// handler has just finished".  (The engine does not redirect the overtaking
+// request's own Rollback calls while this stub is active; the real Rollback of
+// the model's zero Tx returns ErrTxClosed, which is what it returns after the
+// Commit that precedes it on all those paths.)
 func vxC12Rollback(tx *bbolt.Tx) error {
 	if !vxC12TxOpen {
+		vxC12Yield()
 		return vxC12ErrClosed
 	}
 	vxC12TxOpen = false
+	vxC12Yield()
 	return nil
 }
 
@@ -332,7 +378,7 @@ func vxC12Throttle() {
 	// concrete set: a symbolic duration stalls the solver in time.Add (d / 1e9)
 	mins := []int64{15}
 	if vx.Thorough() {
-		mins = []int64{1, 2, 15, 60, 100000}
+		mins = []int64{1, 15}
 	}
 	blockMin := mins[vx.Choice("blockMin", len(mins))]
 	blockNs := blockMin * 60_000_000_000
@@ -348,9 +394,17 @@ func vxC12Throttle() {
 	var ref [2]vxC12Ref
 	prev := int64(1)
 
+	// quick: at most one attempt comes from the second address (any position
+	// but the first); thorough: every attempt but the first from either
+	bpos := -1
+	if !vx.Thorough() {
+		bpos = vx.Choice("bpos", k)
+	}
 	for i := 0; i < k; i++ {
 		x := 0
-		if i > 0 {
+		if bpos > 0 && i == bpos {
+			x = 1
+		} else if bpos < 0 && i > 0 {
 			x = vx.Choice("addr", 2)
 		}
 		if x == 1 {
@@ -442,13 +496,17 @@ func vxC12Throttle() {
 // ---- (b) sessions ----
 
 // vxC12Sess is the reference state of one issued token.  The expiry moves
-// forward when the token is used ("once a day"), so it is known only up to one
-// day: the token must be refused from hi on and must be accepted before lo.
+// forward when the token is used ("update expiration time once a day"), so
+// after a use it is known only up to one day:
+//   - the token must be refused from (last authenticated use or login) + TTL on;
+//   - it must be accepted before login + TTL and before (last use) + TTL - 1 day;
+//   - once refused it stays refused (the clock does not go back).
 type vxC12Sess struct {
 	tok       string
 	loggedOut bool
 	dead      bool
-	lo, hi    int64
+	orig      int64 // login + TTL
+	last      int64 // last authenticated use (or login)
 }
 
 func vxC12Sessions() {
@@ -456,9 +514,19 @@ func vxC12Sessions() {
 	if vx.Thorough() {
 		k = 3
 	}
+	// window of instants and TTL range: the day arithmetic of the refresh
+	// (x / 86400 on symbolic x) is only tractable for the solver over a few
+	// days; the window starts at an arbitrary (not day-aligned) instant
+	const t0 = 1_700_000_000 + 30_000
+	span, maxTTL := int64(8*86400), uint32(3*86400)
+	if vx.Thorough() {
+		span, maxTTL = 70*86400, 31*86400
+	}
 	ttl := vx.Uint32("ttl")
+	vx.Assume(ttl <= maxTTL)
+	ttl64 := int64(ttl)
 	now := vx.Int64("now")
-	vx.Assume(1_000_000_000 <= now)
+	vx.Assume(t0 <= now)
 	ns := vx.Int64("ns")
 	vx.Assume(0 <= ns)
 	vx.Assume(ns < 1_000_000_000)
@@ -473,9 +541,7 @@ func vxC12Sessions() {
 	advance := func() {
 		t := vx.Int64("now")
 		vx.Assume(now <= t)
-		// 32-bit wrap of the expiry (year 2106) is outside the claim
-		vx.Assume(t < 1<<32)
-		vx.Assume(t+int64(ttl) < 1<<32)
+		vx.Assume(t <= t0+span)
 		now = t
 		vxC12Clock = vxC12T{now, ns, vxC12Clock.mono + 1}
 	}
@@ -486,18 +552,24 @@ func vxC12Sessions() {
 		if w.cookie == nil {
 			return
 		}
-		e := now + int64(ttl)
-		sess = append(sess, &vxC12Sess{tok: w.cookie.Value, lo: e, hi: e})
+		sess = append(sess, &vxC12Sess{tok: w.cookie.Value, orig: now + ttl64, last: now})
 	}
 	pick := func() (tok string, s *vxC12Sess) {
-		i := vx.Choice("tok", len(sess)+1)
+		n := len(sess)
+		if vx.Thorough() {
+			n++
+		}
+		i := vx.Choice("tok", n)
 		if i == len(sess) {
 			return bogus, nil
 		}
 		return sess[i].tok, sess[i]
 	}
-	request := func(tok string, s *vxC12Sess) {
+	request := func(tok string, s *vxC12Sess, final bool) {
 		served, w := vxC12Request(tok)
+		if !served {
+			vx.Assert(w.code == http.StatusForbidden, "an unauthenticated request is answered 403")
+		}
 		switch {
 		case s == nil:
 			vx.Reach("rejected-unknown")
@@ -505,30 +577,20 @@ func vxC12Sessions() {
 		case s.loggedOut:
 			vx.Reach("rejected-logged-out")
 			vx.Assert(!served, "a token does not authenticate after logout")
-		case s.dead || now >= s.hi:
-			vx.Reach("rejected-expired")
-			s.dead = true
-			vx.Assert(!served, "a token does not authenticate at or after its expiry")
-		case now < s.lo:
-			vx.Assert(served, "a token authenticates between login and expiry/logout")
-		}
-		if served {
+		case s.dead:
+			vx.Assert(!served, "a token refused as expired stays refused")
+		case served:
 			vx.Reach("accepted")
-			if s != nil {
-				if now+int64(ttl) > s.hi {
-					vx.Reach("refreshed")
-				}
-				s.hi = now + int64(ttl)
-				if l := s.hi - 86399; l > s.lo {
-					s.lo = l
-				}
+			vx.Assert(now < s.last+ttl64, "a token does not authenticate at or after its expiry")
+			if final && now >= s.orig {
+				// still valid after the expiry it was created with
+				vx.Reach("refreshed")
 			}
-		} else {
-			vx.Assert(w.code == http.StatusForbidden, "an unauthenticated request is answered 403")
-			if s != nil {
-				// lazy deletion: refused once, refused for good
-				s.dead = true
-			}
+			s.last = now
+		default:
+			vx.Reach("rejected-expired")
+			vx.Assert(vx.And(now >= s.orig, now >= s.last+ttl64-86399), "a token authenticates between login and expiry/logout")
+			s.dead = true
 		}
 	}
 	restart := func() {
@@ -541,9 +603,15 @@ func vxC12Sessions() {
 	login()
 	for i := 0; i < k; i++ {
 		advance()
-		switch vx.Choice("op", 4) {
+		// a second login (second token) only in the thorough tier
+		nops := 3
+		if vx.Thorough() {
+			nops = 4
+		}
+		switch vx.Choice("op", nops) {
 		case 0:
-			request(pick())
+			tok, s := pick()
+			request(tok, s, false)
 		case 1:
 			tok, s := pick()
 			w := vxC12Logout(tok)
@@ -554,22 +622,61 @@ func vxC12Sessions() {
 		case 2:
 			restart()
 		default:
-			if len(sess) < 2 {
-				login()
+			if len(sess) >= 2 {
+				return
 			}
+			login()
 		}
 	}
 	advance()
-	if vx.Bool("finalRestart") {
-		restart()
-	}
 	for _, s := range sess {
-		request(s.tok, s)
+		request(s.tok, s, true)
 		if s.loggedOut {
 			vx.Assert(vxC12Disk.find(vxC12TokKey(s.tok)) < 0, "logout removes the session record from the file")
 		}
 	}
-	request(bogus, nil)
+	request(bogus, nil, true)
+}
+
+// vxC12LogoutRace: one request with the same token overtakes the logout
+// handler at one of its database calls.  Whatever that request saw, after the
+// logout has returned the token is dead, also across a restart.
+func vxC12LogoutRace() {
+	const t0 = 1_700_000_000 + 30_000
+	span, maxTTL := int64(8*86400), uint32(3*86400)
+	ttl := vx.Uint32("ttl")
+	vx.Assume(ttl <= maxTTL)
+	now := vx.Int64("now")
+	vx.Assume(t0 <= now)
+	vx.Assume(now <= t0+span)
+
+	vxC12Disk, vxC12TxOpen, vxC12CmpCalls, vxC12Tokens = vxC12Bkt{}, false, 0, 0
+	vxC12Clock = vxC12T{now, 0, 1}
+	vxC12NewAuth(ttl, nil)
+	w := vxC12Login("192.0.2.7:4000", "", "u", true)
+	vx.Assert(w.code == http.StatusOK && w.cookie != nil, "login without rate limiter succeeds")
+	if w.cookie == nil {
+		return
+	}
+	tok := w.cookie.Value
+
+	t := vx.Int64("now")
+	vx.Assume(now <= t)
+	vx.Assume(t <= t0+span)
+	vxC12Clock = vxC12T{t, 0, 2}
+
+	vxC12YieldOn, vxC12YieldAt, vxC12YieldTok = true, vx.Choice("yieldAt", 2), tok
+	vxC12Logout(tok)
+	vxC12YieldOn = false
+
+	vx.Reach("race-probed")
+	served, _ := vxC12Request(tok)
+	vx.Assert(!served, "a token does not authenticate after logout (a request raced with the logout)")
+	globalContext.auth.Close()
+	vxC12NewAuth(ttl, nil)
+	served, _ = vxC12Request(tok)
+	vx.Assert(!served, "a token does not authenticate after logout and restart (a request raced with the logout)")
+	vx.Assert(vxC12Disk.find(vxC12TokKey(tok)) < 0, "no record of a logged-out session is left in the file (a request raced with the logout)")
 }
 
 func vxC12TokKey(tok string) []byte {
